@@ -207,3 +207,23 @@ Proof.
   rewrite P1' in P2'. injection P2' as <-.
   rewrite <- (app_nil_r p1) in Hq at 1. apply app_inv_head in Hq. symmetry. assumption.
 Qed.
+
+(** * [CredentialContext]: the wrappers derive along the paths of the direct getters for the same
+    (identity provider, identity, credential, tag); swapping two different indices changes the path. *)
+Theorem context_paths_agree_lemma (c : credential_context) (tag : N) :
+  ctx_attribute_randomness_path c tag
+  = path_of (ctx_net c) (AttributeCommitmentRandomness (ctx_ip c) (ctx_id c) (ctx_cred c) tag)
+  /\ ctx_cred_id_prf_path c = path_of (ctx_net c) (PrfKey (ctx_ip c) (ctx_id c)).
+Proof. split; reflexivity. Qed.
+
+Theorem context_paths_order_sensitive_lemma n ip id cred tag p :
+  u32 ip -> u32 id -> u32 cred -> tag < 256 ->
+  path_of n (AttributeCommitmentRandomness ip id cred tag) = Some p ->
+  path_of n (AttributeCommitmentRandomness id ip cred tag) = Some p -> ip = id.
+Proof.
+  intros Hip Hid Hc Ht P1 P2.
+  assert (W1 : wf_kind (AttributeCommitmentRandomness ip id cred tag)) by (cbn [wf_kind]; tauto).
+  assert (W2 : wf_kind (AttributeCommitmentRandomness id ip cred tag)) by (cbn [wf_kind]; tauto).
+  destruct (paths_injective_lemma n _ n _ p W1 W2 P1 P2) as [_ E].
+  injection E. intros. assumption.
+Qed.
